@@ -290,7 +290,7 @@ func c11Concurrent(c *Ctx) {
 			for i := 0; i < 2; i++ {
 				r := c11ConcExec(e, sc, explore.Replay(first, nil), false, c.Seed)
 				if o := sched.DescribeOrder(r.out.Order); o != firstOrder {
-					c.Error("replay divergence in concurrent sign-out %+v: order %s vs %s (aborted %q)", sc, firstOrder, o, r.out.Aborted)
+					c.Unstable("replay divergence in concurrent sign-out %+v: order %s vs %s (aborted %q)", sc, firstOrder, o, r.out.Aborted)
 				}
 			}
 		}
